@@ -46,7 +46,10 @@ Idx == <<<<118, 98>>, <<97, 105>>, <<91>>, <<93>>, <<42>>, <<48>>, <<97, 110, 12
          <<61, 61>>, <<49>>, <<110, 111, 116>>>>
 (* literal items of a brace list, character by character:  i in {<body>}  over  - 0 1 7 8 9 a x . space     *)
 IntItemChars == <<<<45>>, <<48>>, <<49>>, <<55>>, <<56>>, <<57>>, <<97>>, <<120>>, <<46>>, <<32>>>>
-Atoms == IF Set = "logic" THEN Logic ELSE IF Set = "cmp" THEN Cmp ELSE IF Set = "intitems" THEN IntItemChars ELSE Idx
+(* value expressions (parse_value): identifiers, index brackets, keys, calls *)
+ValAtoms == <<<<97, 105>>, <<118, 98>>, <<97, 46, 98>>, <<105>>, <<91>>, <<93>>, <<48>>, <<49>>, <<42>>, <<34, 107, 34>>, SP, <<98, 98>>, LPa, RPa, <<98, 49>>, <<46>>, <<45, 49>>>>
+Atoms == IF Set = "logic" THEN Logic ELSE IF Set = "cmp" THEN Cmp ELSE IF Set = "intitems" THEN IntItemChars
+         ELSE IF Set = "value" THEN ValAtoms ELSE Idx
 Prefix == IF Set = "intitems" THEN <<105, 32, 105, 110, 32, 123>> ELSE <<>>
 Suffix == IF Set = "intitems" THEN <<125>> ELSE <<>>
 Seqs == UNION {[1..n -> 1..Len(Atoms)] : n \in 1..MaxAtoms}
@@ -54,8 +57,15 @@ TextOf(q) == Prefix \o FlatSeq(Strict([i \in 1..Len(q) |-> Atoms[q[i]]])) \o Suf
 Init == txt \in {TextOf(q) : q \in Seqs}
 Next == FALSE /\ UNCHANGED txt
 Spec == Init /\ [][Next]_txt
+RV == ParseValueText(txt, Sch, 128, -1, Idents)
+EmitValue == RV.v # "unspec" =>
+          PrintT(<<"REPLAY", ToJson(
+            IF RV.v = "yes"
+            THEN [ev |-> "value", sch |-> 1, max |-> 128, chars |-> txt, ok |-> TRUE, ast |-> ValueAstJson(RV.node),
+                  runs |-> Strict([n \in 1..Len(Ctxs) |-> [ctx |-> n, out |-> "ok", res |-> EvalValue(RV.node, Ctxs[n], Sch)]]), uses |-> <<>>]
+            ELSE [ev |-> "value", sch |-> 1, max |-> 128, chars |-> txt, ok |-> FALSE])>>)
 R == ParseText(txt, Sch, 128, -1, Idents)
-Emit == R.v # "unspec" =>
+Emit == IF Set = "value" THEN EmitValue ELSE R.v # "unspec" =>
           PrintT(<<"REPLAY", ToJson(
             IF R.v = "yes"
             THEN [ev |-> "filter", sch |-> 1, max |-> 128, chars |-> txt, ok |-> TRUE, ast |-> AstJson(R.node),
